@@ -46,6 +46,20 @@ def _elem(x):
   return ['E', x[0], x[1]]
 
 
+def _loss_kind(cfg, lost):
+  """Names the loss of elements produced before a generator failure.
+
+  The known defect F3 drops the part of the *failing batch* that had already
+  been dequeued when the exception arrived: fewer than `bs` elements for a
+  requested batch size bs >= 2, any number for bs == 0 ("as many as there
+  are"), never any for bs == 1.  Anything larger is another defect.
+  """
+  bs = cfg['bs']
+  if bs != 1 and (bs == 0 or lost <= bs - 1):
+    return 'elements-before-failure-lost'
+  return 'elements-before-failure-lost-beyond-failing-batch'
+
+
 class PrefetchFamily(common.Family):
   prop = 'C15'
   name = 'prefetch'
@@ -349,9 +363,10 @@ class PrefetchFamily(common.Family):
       if fail_at is not None and not cfg['ignore_error'] and \
           end[1:] == ['ValueError', f'gen {tag} failed at {fail_at}']:
         if len(idx) != upto:
-          res.append(v('failure', f'elements-before-failure-lost:{scen}',
+          res.append(v('failure', f'{_loss_kind(cfg, upto - len(idx))}:{scen}',
                        f'{name}: the generator produced {upto} elements before '
-                       f'failing, the client received {len(idx)}: {stream}'))
+                       f'failing, the client received {len(idx)} '
+                       f"(requested batch size {cfg['bs']}): {stream}"))
       elif allow_stop and end[1] == 'TimeoutError':
         pass
       else:
@@ -409,9 +424,9 @@ class PrefetchFamily(common.Family):
         if a['end'][0] != 'exc' or a['end'][1] != 'ValueError':
           res.append(v('failure', f'not-surfaced:{scen}', f"{a['end']}"))
         elif len(idx) != upto:
-          res.append(v('failure', f'elements-before-failure-lost:{scen}',
+          res.append(v('failure', f'{_loss_kind(cfg, upto - len(idx))}:{scen}',
                        f'the generator produced {upto} elements before failing, '
-                       f'the client loop yielded {len(idx)}'))
+                       f"the client loop yielded {len(idx)} (batch size {cfg['bs']})"))
     elif scen in ('reinit_seq', 'reinit_conc'):
       if 'A' in st:
         res += self._check_stream(cfg, 'clientA', st['A'], 'A', cfg['n'],
